@@ -501,6 +501,8 @@ def _r4(ctx):
     if isinstance(val, ast.Name) and val.id in lenv:
         val = lenv[val.id]                              # the emitted value through its one name (`synergy = ..; out.append(synergy)`)
     val = inline(val, {k: v for k, v in lenv.items() if isinstance(v, ast.Name) and v.id != obs_var})
+    if isinstance(val, ast.BinOp) and isinstance(val.left, ast.Name) and val.left.id != obs_var and isinstance(lenv.get(val.left.id), ast.Call):
+        val = ast.BinOp(left=lenv[val.left.id], op=val.op, right=val.right)          # `expected = np.prod(effects); out.append(expected - obs)`
     effs = None
     if isinstance(val, ast.BinOp) and isinstance(val.op, ast.Sub) and isinstance(val.left, ast.Call) and call_name(val.left) in ("np.prod", "np.product") and len(val.left.args) == 1 \
             and isinstance(val.left.args[0], ast.Name):
